@@ -136,7 +136,7 @@ Proof.
   apply andb_true_iff in H as [_ H]. split; intro Hh; rewrite Hh in H.
   - apply andb_true_iff in H as [H H3]. apply andb_true_iff in H as [H1 H2].
     repeat split; auto.
-    intros Hw c Hc. rewrite Hw in H3. simpl in H3. rewrite forallb_forall in H3. apply H3.
+    intros Hw c Hc. rewrite Hw in H3. cbn [negb orb] in H3. rewrite forallb_forall in H3. apply H3.
     destruct c as [|[|[|c]]]; simpl; auto; lia.
   - apply andb_true_iff in H as [H1 H2]. split; assumption.
 Qed.
